@@ -334,13 +334,13 @@ func countCases(big bool) []ccase {
 		// large exact tables (one variant per box type): the allocation really is proportional to the input
 		done := map[string]bool{}
 		for _, v := range countVariants(16384) {
-			if len(v.bytes) >= 16384 && !done[v.box] && v.box != "stsc" && v.box != "leva" && v.box != "tlou" && v.box != "uuid" && v.box != "sgpd" {
+			if len(v.bytes) >= 16384 && !done[v.box] && v.box != "stsc" && v.box != "subs" && v.box != "leva" && v.box != "tlou" && v.box != "uuid" && v.box != "sgpd" {
 				done[v.box] = true
 				emit(fmt.Sprintf("%s/%s/k16384", v.box, v.tag), v.bytes, v.nest)
 			}
 		}
 		for _, v := range countVariants(1024) {
-			if v.box == "stsc" || v.box == "sgpd" || (v.box == "trun" && v.tag == "v0f000") {
+			if v.box == "stsc" || v.box == "subs" || v.box == "sgpd" || (v.box == "trun" && v.tag == "v0f000") {
 				emit(fmt.Sprintf("%s/%s/k1024", v.box, v.tag), v.bytes, v.nest)
 			}
 		}
@@ -348,13 +348,19 @@ func countCases(big bool) []ccase {
 	return out
 }
 
-// nestIn wraps a box into its parent chain and a minimal file
+// fullMoov: a complete moov (one video track, no samples) with extra children at three levels
+func fullMoov(inMoov, inTrak, inStbl []byte) []byte {
+	p := getParts()
+	return box("moov", p.mvhd, inMoov, box("trak", p.tkhd, inTrak, box("mdia", p.mdhd, p.hdlr, box("minf", p.vmhd, p.dinf,
+		box("stbl", p.stsd, fullbox("stts", 0, 0, u32(0)), inStbl)))))
+}
+
+// nestIn wraps a box into its parent chain and a minimal file that decodes when the box does
 func nestIn(b []byte, chain string) []byte {
 	p := getParts()
 	switch chain {
 	case "stbl":
-		return cat(p.ftyp, box("moov", p.mvhd, box("trak", p.tkhd, box("mdia", p.mdhd, p.hdlr, box("minf", p.vmhd, p.dinf,
-			box("stbl", p.stsd, fullbox("stts", 0, 0, u32(0)), b))))))
+		return cat(p.ftyp, fullMoov(nil, nil, b))
 	case "moof/traf":
 		return cat(p.ftyp, moovChain(5, 0), box("moof", mfhd(1), box("traf", tfhd(1), b)), mdat(4))
 	case "mfra":
@@ -364,25 +370,20 @@ func nestIn(b []byte, chain string) []byte {
 	}
 	parts := strings.Split(chain, "/")
 	w := b
-	for i := len(parts) - 1; i >= 0; i-- {
-		switch parts[i] {
-		case "meta":
+	for i := len(parts) - 1; i >= 1; i-- {
+		if parts[i] == "meta" {
 			w = box("meta", u32(0), w)
-		case "trak":
-			w = box("trak", p.tkhd, w)
-		case "moov":
-			w = box("moov", p.mvhd, w)
-		default:
+		} else {
 			w = box(parts[i], w)
 		}
 	}
-	if parts[0] != "moov" {
-		if parts[0] == "moof" {
-			return cat(p.ftyp, w)
-		}
-		w = box("moov", p.mvhd, w)
+	switch parts[0] {
+	case "trak":
+		return cat(p.ftyp, fullMoov(nil, w, nil))
+	case "moov":
+		return cat(p.ftyp, fullMoov(w, nil, nil))
 	}
-	return cat(p.ftyp, w)
+	return cat(p.ftyp, fullMoov(box(parts[0], w), nil, nil))
 }
 
 // ---------------------------------------------------------------- worker side: kind "C"
@@ -415,6 +416,8 @@ func entryCount(b mp4.Box) int {
 		return int(t.SampleCount)
 	case *mp4.SbgpBox:
 		return len(t.SampleCounts)
+	case *mp4.SubsBox:
+		return len(t.Entries)
 	case *mp4.ElstBox:
 		return len(t.Entries)
 	case *mp4.TfraBox:
@@ -455,7 +458,7 @@ func countJob(data []byte, sr bool) string {
 }
 
 var modelled = map[string]bool{"trun": true, "stts": true, "ctts": true, "stsc": true, "stsz": true, "stco": true, "co64": true,
-	"stss": true, "sdtp": true, "saiz": true, "saio": true, "senc": true, "sbgp": true, "elst": true, "tfra": true, "sidx": true,
+	"stss": true, "sdtp": true, "saiz": true, "saio": true, "senc": true, "sbgp": true, "subs": true, "elst": true, "tfra": true, "sidx": true,
 	"pssh": true, "ssix": true, "hint": true, "leva": true}
 
 func isModelled(c ccase) bool {
@@ -584,6 +587,14 @@ func cmdCounts() {
 	filter := ""
 	if len(os.Args) > 2 {
 		filter = os.Args[2]
+	}
+	if filter == "nest" {
+		// the unmodified variants nested in a file: do they decode?
+		for _, v := range countVariants(2) {
+			res := runJobs([]job{{kind: "P", cfg: "RN0", data: nestIn(v.bytes, v.nest)}, {kind: "X", cfg: "-", data: v.bytes}}, 1)
+			fmt.Fprintf(out, "%s/%s\tnest=%s\t%s\t%s\n", v.box, v.tag, v.nest, res[0], res[1])
+		}
+		return
 	}
 	cases := countCases(true)
 	fmt.Fprintf(out, "%d cases\n", len(cases))
